@@ -3,6 +3,7 @@
  *   c15_replay replay <cases.txt> <out.ndjson> <family>         replay TLC-generated cases (spec/Stats.tla) of one family
  *   c15_replay trace  <out.ndjson> <seed> <blocks> <maxn>       validate direction: random long inputs, results logged for TLC
  *   c15_replay one    <cases.txt> <out.ndjson>                  validate direction on given inputs (replay of a reported case)
+ *   c15_replay cls    <out.ndjson> <seed> <level> <part> <nparts> validate direction, CLASS-directed (INPUT-CLASSES.md K1..K9): stratified blocks, see do_cls()
  *
  * cases.txt (written by the check from TLC's output):  <family> <nscalars> <narrays> / scalars / one line "<len> v.." per array
  *   Roc    scalars n p nn auc2 apn apd          arrays y ord roc(2 per point) pr(2 per point)
@@ -15,7 +16,13 @@
  *   Roc{kind,n,y,ord,p,nn,pts,res,auc2,aucres}  Area{ca2,cares}  Pr{pr,prres,ap9}     kind: base | mono | perm | neg
  *       pts = round(x*N), round(y*P) of every returned point, res = largest distance of a coordinate from that fraction (1e-12 units),
  *       auc2 = round(auc*2PN) (+ residual), ca2 the same for curve_area() called on the returned points, pr = [round(recall*P), index]
- *   RegIn{n,exp,off,yt,yp,m}  Mse{ssen,res}  Mae{saen,res}  Rmse{res}  R2{q}  Bias{q}           q in units of 1e-4
+ *   RegIn{n,exp,dx,off,yt,yp,m}  Mse{ssen,res}  Mae{saen,res}  Rmse{res}  R2{q,d,num,res,over}  Bias{q,d,num,res}     q in units of 1e-4;
+ *       values fed = (int + off) * 2^exp * 10^dx;  d = m*Syy - Sy^2 of the integer truths (recomputed by TLC), num = round(result * d), res = |result - num/d| (1e-12)
+ *   Again{fn,var,pre,rows,head,pts,res}      ROC / PrecisionRecall called on the data of the last Roc event into an output that already holds `pre` rows
+ *   TabIn{fam,n,ny,nlv,exp,off,mask,hist,pre,mt,mp}  TabOut{dims,ent}      PLSRegressionStatistics / MLRRegressionStatistics (mask: 1 r2, 2 rmse, 4 bias non-NULL;
+ *       hist: fresh presized resized second shape; pre = entries each output held on entry; ent[(lv,j) LV-major] = [m, ssen, msres, d, r2num, r2res, bnum, bres])
+ *   DaIn{n,ny,nlv,hist,pre,mt,ords}  DaOut{dims,ent,rocs,prs,res}          PLSDiscriminantAnalysisStatistics (ords[c] = rank order of score column c)
+ *   Poly{n,exp,pts,a2,res}                   curve_area() on an arbitrary integer polyline (outside the statement: EXTRA only)
  */
 #include "scientific.h"
 #include "verif_rt.h"
@@ -274,18 +281,47 @@ static int order_of(double *s, int n, long *ord){
   return ok;
 }
 
+/* class-directed options of emit_roc (set by do_cls) */
+static const char *g_sc = "rand";               /* tag of the score distribution, copied into the Roc event */
+static dvector *g_yt = NULL, *g_ys = NULL;      /* K7: when set, the SAME input vectors are reused in place for every call (DVectorResize when n changes) */
+static int g_again = 0;                         /* K7: 1 = also call ROC / PrecisionRecall into outputs pre-sized by NewMatrix(n, 2); 2 = into outputs a previous call (negated scores) filled */
+static void emit_again(const char *fn, int var, matrix *out, size_t pre, matrix *before, double den_x, double den_y, int pr_kind){
+  int head = out->row >= pre;
+  for(size_t i = 0; head && i < pre; i++) if(memcmp(out->data[i], before->data[i], 2 * sizeof(double))) head = 0;
+  jp = 0; J("{\"e\":\"Again\",\"fn\":\"%s\",\"var\":%d,\"pre\":%zu,\"rows\":%zu,\"head\":%d,\"pts\":[", fn, var, pre, out->row, head);
+  double res = 0;
+  for(size_t i = pre, k = 0; i < out->row; i++, k++){
+    if(!pr_kind){
+      long fp = (long)llround(out->data[i][0] * den_x), tp = (long)llround(out->data[i][1] * den_y);
+      double r1 = fabs(out->data[i][0] - (double)fp / den_x), r2 = fabs(out->data[i][1] - (double)tp / den_y);
+      if(!(r1 <= res)) res = r1; if(!(r2 <= res)) res = r2;
+      J("%s[%ld,%ld]", k ? "," : "", fp, tp);
+    }
+    else if(k == 0){ double a = fabs(out->data[i][0]), b = fabs(out->data[i][1] - 1.0); res = a > b ? a : b; }
+    else{
+      long tp = (long)llround(out->data[i][0] * den_y);
+      double r1 = fabs(out->data[i][0] - (double)tp / den_y), r2 = fabs(out->data[i][1] - (double)tp / (double)k);
+      if(!(r1 <= res)) res = r1; if(!(r2 <= res)) res = r2;
+      J("%s[%ld,%zu]", k > 1 ? "," : "", tp, k);
+    }
+  }
+  J("],\"res\":%ld}", vq12(res));
+  VRT_EMIT("%s", jb);
+}
 /* run ROC / curve_area / PrecisionRecall on (y, s) and log what came back, as integers over the known denominators */
 static void emit_roc(const char *kind, int n, long *y, double *s){
   long *ord = malloc(sizeof(long) * n);
   if(!order_of(s, n, ord)){ fprintf(stderr, "internal: tied scores reached emit_roc\n"); exit(2); }
   long p = 0, nn = 0; for(int i = 0; i < n; i++){ if(y[i] == 1) p++; else if(y[i] == 0) nn++; }
-  dvector *yt, *ys; NewDVector(&yt, n); NewDVector(&ys, n);
+  dvector *yt, *ys; int own = (g_yt == NULL);
+  if(own){ NewDVector(&yt, n); NewDVector(&ys, n); }
+  else{ yt = g_yt; ys = g_ys; if((int)yt->size != n){ DVectorResize(yt, n); DVectorResize(ys, n); } }
   for(int i = 0; i < n; i++){ yt->data[i] = y[i] == 2 ? (double)MISSING : (double)y[i]; ys->data[i] = s[i]; }
   matrix *rc, *pc; initMatrix(&rc); initMatrix(&pc); double auc = -1, ap = -1;
   ROC(yt, ys, rc, &auc);
   PrecisionRecall(yt, ys, pc, &ap);
   double ca = curve_area(rc, 0);
-  jp = 0; J("{\"e\":\"Roc\",\"kind\":\"%s\",\"n\":%d", kind, n);
+  jp = 0; J("{\"e\":\"Roc\",\"kind\":\"%s\",\"sc\":\"%s\",\"inpl\":%d,\"n\":%d", kind, g_sc, own ? 0 : 1, n);
   jints("y", y, n); jints("ord", ord, n);
   J(",\"p\":%ld,\"nn\":%ld,\"pts\":[", p, nn);
   double res = 0;
@@ -311,7 +347,23 @@ static void emit_roc(const char *kind, int n, long *y, double *s){
   }
   J("],\"prres\":%ld,\"ap9\":%ld}", vq12(pres), vqs_unit(ap, 1e-9));
   VRT_EMIT("%s", jb);
-  DelMatrix(&rc); DelMatrix(&pc); DelDVector(&yt); DelDVector(&ys); free(ord);
+  if(g_again){
+    /* the unchanged library APPENDS to a non-empty curve matrix (MatrixAppendRow): recorded for the implementation-shaped layer only */
+    for(int w = 0; w < 2; w++){
+      matrix *out, *before; double tmp = 0; initMatrix(&before);
+      if(g_again == 1){ NewMatrix(&out, n, 2); for(int i = 0; i < n; i++){ out->data[i][0] = 0.25 + i; out->data[i][1] = -3.5; } }
+      else{
+        initMatrix(&out); dvector *neg; NewDVector(&neg, n); for(int i = 0; i < n; i++) neg->data[i] = -s[i];
+        if(w == 0) ROC(yt, neg, out, &tmp); else PrecisionRecall(yt, neg, out, &tmp);
+        DelDVector(&neg);
+      }
+      size_t pre = out->row; MatrixCopy(out, &before);
+      if(w == 0) ROC(yt, ys, out, &tmp); else PrecisionRecall(yt, ys, out, &tmp);
+      emit_again(w == 0 ? "ROC" : "PrecisionRecall", g_again, out, pre, before, (double)nn, (double)p, w);
+      DelMatrix(&out); DelMatrix(&before);
+    }
+  }
+  DelMatrix(&rc); DelMatrix(&pc); if(own){ DelDVector(&yt); DelDVector(&ys); } free(ord);
 }
 
 static double mono(int which, double x, double lo, double hi){
@@ -332,20 +384,42 @@ static int strictly_same_order(double *a, double *b, int n){       /* b must ord
   free(oa); free(ob); return ok;
 }
 
-static void emit_reg(int n, long *a, long *b, int ex, long off){
+/* the value fed for the integer v: (v + off) * 2^ex * 10^dx  (dx # 0 only with off = 0: a decimal scale is not exactly representable) */
+static double unit10(int dx){ double u = 1.0; for(int i = 0; i < (dx < 0 ? -dx : dx); i++) u *= 10.0; return u; }      /* 10^|dx| exactly (|dx| <= 22) */
+static double fed(long v, long off, int ex, int dx){
+  double x = ldexp((double)v + (double)off, ex);
+  return dx > 0 ? x * unit10(dx) : (dx < 0 ? x / unit10(dx) : x);
+}
+static int near_missing(double x){ return fabs(x - (double)MISSING) < 1.0; }
+/* integer moments of the present truths: m, d = m*Syy - Sy^2 (what TLC recomputes as Stats!DD) */
+static void int_moments(int n, long *a, int stride, long *m_out, long *d_out){
+  long m = 0, sy = 0, syy = 0;
+  for(int i = 0; i < n; i++){ long v = a[i * stride]; if(v != MISSCODE){ m++; sy += v; syy += v * v; } }
+  *m_out = m; *d_out = m * syy - sy * sy;
+}
+/* result * d as an integer plus the distance of the result from that fraction (1e-12 units); non-finite results saturate */
+static void frac_of(double r, long d, long *num, long *res){
+  if(!vfinite(r) || d <= 0 || fabs(r) * (double)d >= 1.9e9){ *num = VQ_MAX; *res = VQ_MAX; return; }
+  *num = (long)llround(r * (double)d); *res = vq12(fabs(r - (double)*num / (double)d));
+}
+static void emit_reg(int n, long *a, long *b, int ex, long off, int dx){
   dvector *yt, *yp; NewDVector(&yt, n); NewDVector(&yp, n);
   int m = 0;
-  for(int i = 0; i < n; i++){ if(a[i] != MISSCODE) m++; yt->data[i] = a[i] == MISSCODE ? (double)MISSING : ldexp((double)a[i] + (double)off, ex); yp->data[i] = ldexp((double)b[i] + (double)off, ex); }
+  for(int i = 0; i < n; i++){ if(a[i] != MISSCODE) m++; yt->data[i] = a[i] == MISSCODE ? (double)MISSING : fed(a[i], off, ex, dx); yp->data[i] = fed(b[i], off, ex, dx); }
+  for(int i = 0; i < n; i++) if(a[i] != MISSCODE && near_missing(yt->data[i])){ fprintf(stderr, "internal: a present truth equals the missing code\n"); exit(2); }
   double mse = MSE(yt, yp), mae = MAE(yt, yp), rmse = RMSE(yt, yp), r2 = R2(yt, yp), bias = BIAS(yt, yp);
   double s1 = ldexp(1.0, -ex), s2 = ldexp(1.0, -2 * ex);
+  if(dx > 0){ s1 /= unit10(dx); s2 /= unit10(dx) * unit10(dx); } else if(dx < 0){ s1 *= unit10(dx); s2 *= unit10(dx) * unit10(dx); }
   long ssen = (long)llround(mse * s2 * m), saen = (long)llround(mae * s1 * m);
-  jp = 0; J("{\"e\":\"RegIn\",\"n\":%d,\"exp\":%d,\"off\":%ld", n, ex, off); jints("yt", a, n); jints("yp", b, n); J(",\"m\":%d}", m);
+  long mm, d, r2n, r2r, bn, br; int_moments(n, a, 1, &mm, &d);
+  frac_of(r2, d, &r2n, &r2r); frac_of(bias, d, &bn, &br);
+  jp = 0; J("{\"e\":\"RegIn\",\"n\":%d,\"exp\":%d,\"dx\":%d,\"off\":%ld", n, ex, dx, off); jints("yt", a, n); jints("yp", b, n); J(",\"m\":%d}", m);
   VRT_EMIT("%s", jb);
   VRT_EMIT("{\"e\":\"Mse\",\"ssen\":%ld,\"res\":%ld}", ssen, vq12(fabs(mse * s2 - (double)ssen / m)));
   VRT_EMIT("{\"e\":\"Mae\",\"saen\":%ld,\"res\":%ld}", saen, vq12(fabs(mae * s1 - (double)saen / m)));
   VRT_EMIT("{\"e\":\"Rmse\",\"res\":%ld}", vq12(fabs(rmse * rmse - mse) * s2 / (mse * s2 > 1.0 ? mse * s2 : 1.0)));
-  VRT_EMIT("{\"e\":\"R2\",\"q\":%ld}", vqs_unit(r2, 1e-4));
-  VRT_EMIT("{\"e\":\"Bias\",\"q\":%ld}", vqs_unit(bias, 1e-4));
+  VRT_EMIT("{\"e\":\"R2\",\"q\":%ld,\"d\":%ld,\"num\":%ld,\"res\":%ld,\"over\":%ld}", vqs_unit(r2, 1e-4), d, r2n, r2r, vq12(r2 > 1.0 ? r2 - 1.0 : 0.0));
+  VRT_EMIT("{\"e\":\"Bias\",\"q\":%ld,\"d\":%ld,\"num\":%ld,\"res\":%ld}", vqs_unit(bias, 1e-4), d, bn, br);
   DelDVector(&yt); DelDVector(&yp);
 }
 
@@ -408,10 +482,409 @@ static int do_trace(const char *out, long seed, int blocks, int maxn){
       static const int EX[5] = { -20, -7, 0, 9, 20 };
       /* common offset: |mean| / spread up to 1e9 (TLC recomputes from the integer deviations; Stats!ThShiftInvariant) */
       static const long OFF[8] = { 0, 0, 1000, 1000000, -1000000, 30000000, 250000000, 1000000000 };
-      emit_reg(rn, a, c, EX[vr_int(&R, 0, 4)], OFF[vr_int(&R, 0, 7)]);
+      emit_reg(rn, a, c, EX[vr_int(&R, 0, 4)], OFF[vr_int(&R, 0, 7)], 0);
     }
     free(y); free(y2); free(s); free(t); free(tmp);
   }
+  cur_i = -1;
+  vrt_close();
+  return 0;
+}
+
+/* ================= class-directed validate direction (INPUT-CLASSES.md) =================
+ * Every block starts with Reset{n,cls:[tags]}; the tags name the classes the block was built for (the check counts them).  What is fed is always inside
+ * the quantifier of C15: binary truths with both classes, tie-free finite scores, regression integers at a dyadic (or, without offset, decimal) scale with
+ * at most 20 % missing-coded truths and non-constant present truths. */
+static int g_block = 0, g_part = 0, g_nparts = 1;
+static int take_block(void){ return (g_block++ % g_nparts) == g_part; }
+
+/* ---- score distributions (K3 K4 K5 K8): all tie-free and finite ---- */
+enum { SC_NORM, SC_ULP, SC_ULPNEG, SC_ULPBIG, SC_SPAN, SC_TINY, SC_HUGE, SC_OFFS, SC_OFFSFRAC, SC_DEC, SC_THIRD, SC_DENORM, SC_NEGONLY, SC_N };
+static const char *SC_NAME[SC_N] = { "norm", "ulp1", "ulp1-neg", "ulp1-1e300", "span1e-300..1e300", "tiny1e-300", "huge1e300", "offset1e15", "offset1e8+frac", "dec0.1k", "third", "denormal", "negative" };
+static const char *SC_CLS[SC_N] = { "K8:scores-normal", "K8:scores-1ulp-apart", "K8:scores-1ulp-apart-negative", "K8:scores-1ulp-apart-at-1e300", "K4:scores-span-1e-300..1e300",
+                                    "K4:scores-all-below-1e-297", "K4:scores-all-above-1e300", "K3:scores-offset-1e15", "K3:scores-offset-1e8-spacing-2^-10", "K5:scores-0.1*k",
+                                    "K5:scores-k/3", "K4:scores-denormal", "K8:scores-all-negative" };
+static void shuffle(vrng *R, long *v, int n){ for(int i = n - 1; i > 0; i--){ long j = vr_int(R, 0, i), x = v[i]; v[i] = v[j]; v[j] = x; } }
+/* distinct integers k[0..n-1] from lo..hi in random order */
+static void distinct_ints(vrng *R, int n, long lo, long hi, long *k){
+  long span = hi - lo + 1; long *all = malloc(sizeof(long) * span);
+  for(long i = 0; i < span; i++) all[i] = lo + i;
+  shuffle(R, all, (int)span); memcpy(k, all, sizeof(long) * n); free(all);
+}
+static void gen_scores(vrng *R, int cls, int n, long *y, double *s){
+  long *k = malloc(sizeof(long) * n), *tmp = malloc(sizeof(long) * n);
+  for(int attempt = 0; attempt < 50; attempt++){
+    double sep = 2.5 * vr_unif(R) - 0.5;
+    switch(cls){
+      case SC_NORM: for(int i = 0; i < n; i++) s[i] = vr_norm(R) + (y[i] == 1 ? sep : 0.0); break;
+      case SC_ULP: case SC_ULPNEG: case SC_ULPBIG: {            /* a chain of consecutive doubles, dealt to the objects in random order */
+        double v = cls == SC_ULP ? 1.0 + vr_unif(R) : (cls == SC_ULPNEG ? -(1e5 + 1e4 * vr_unif(R)) : 1e300 * (1.0 + vr_unif(R)));
+        distinct_ints(R, n, 0, n - 1, k);
+        double *chain = malloc(sizeof(double) * n); for(int i = 0; i < n; i++){ chain[i] = v; v = nextafter(v, INFINITY); }
+        for(int i = 0; i < n; i++) s[i] = chain[k[i]];
+        free(chain); break; }
+      case SC_SPAN: distinct_ints(R, n, -300, 300, k); for(int i = 0; i < n; i++) s[i] = (vr_unif(R) < 0.4 ? -1.0 : 1.0) * pow(10.0, (double)k[i]) * (1.0 + 0.5 * vr_unif(R)); break;
+      case SC_TINY: distinct_ints(R, n, 1, 4 * n, k); for(int i = 0; i < n; i++) s[i] = 1e-300 * ((double)k[i] / (4.0 * n)); break;
+      case SC_HUGE: distinct_ints(R, n, 0, 4 * n, k); for(int i = 0; i < n; i++) s[i] = 1e300 * (1.0 + (double)k[i] / (4.0 * n)); break;
+      case SC_OFFS: distinct_ints(R, n, 0, 4 * n, k); for(int i = 0; i < n; i++) s[i] = 1e15 + (double)k[i]; break;
+      case SC_OFFSFRAC: distinct_ints(R, n, 0, 4 * n, k); for(int i = 0; i < n; i++) s[i] = 1e8 + (double)k[i] / 1024.0; break;
+      case SC_DEC: distinct_ints(R, n, -2 * n, 2 * n, k); for(int i = 0; i < n; i++) s[i] = 0.1 * (double)k[i]; break;
+      case SC_THIRD: distinct_ints(R, n, -2 * n, 2 * n, k); for(int i = 0; i < n; i++) s[i] = (double)k[i] / 3.0; break;
+      case SC_DENORM: distinct_ints(R, n, 1, 4 * n, k); for(int i = 0; i < n; i++) s[i] = (double)k[i] * 4.9406564584124654e-324; break;
+      default: for(int i = 0; i < n; i++) s[i] = -exp(vr_norm(R) + (y[i] == 1 ? -sep : 0.0)); break;
+    }
+    if(order_of(s, n, tmp)){ free(k); free(tmp); return; }
+  }
+  fprintf(stderr, "internal: could not draw tie-free scores of class %d\n", cls); exit(2);
+}
+/* truth compositions */
+enum { CP_RAND, CP_ONEPOS, CP_ONENEG, CP_ALT, CP_N };
+static const char *CP_CLS[CP_N] = { "K8:truths-random", "K8:all-but-one-negative", "K8:all-but-one-positive", "K8:truths-alternating" };
+enum { MS_NONE, MS_FIRST, MS_LAST, MS_BOTH, MS_20, MS_ROWPERRESP, MS_N };
+static const char *MS_CLS[MS_N] = { "K9:no-missing", "K9:missing-first", "K9:missing-last", "K9:missing-first-and-last", "K9:missing-20pct", "K9:missing-other-row-per-response" };
+/* the missing pattern that fits the quantifier (at most 20 % missing-coded truths) at length n */
+static int eff_miss(int n, int miss){ if(n < 5) return MS_NONE; if(miss == MS_BOTH && n < 10) return MS_FIRST; return miss; }
+static void gen_truths(vrng *R, int comp, int miss, int n, long *y){
+  for(;;){
+    double pp = 0.15 + 0.7 * vr_unif(R);
+    long one = vr_int(R, 0, n - 1);
+    for(int i = 0; i < n; i++) y[i] = comp == CP_ONEPOS ? (i == one) : (comp == CP_ONENEG ? (i != one) : (comp == CP_ALT ? (i & 1) : (vr_unif(R) < pp)));
+    if(n >= 5){
+      if(miss == MS_FIRST || miss == MS_BOTH) y[0] = 2;
+      if(miss == MS_LAST || miss == MS_BOTH) y[n - 1] = 2;
+      if(miss == MS_20){ long *k = malloc(sizeof(long) * n); distinct_ints(R, n / 5, 0, n - 1, k); for(int q = 0; q < n / 5; q++) y[k[q]] = 2; free(k); }
+    }
+    long p = 0, nn = 0; for(int i = 0; i < n; i++){ if(y[i] == 1) p++; else if(y[i] == 0) nn++; }
+    if(p >= 1 && nn >= 1) return;
+  }
+}
+static void reset_line(int n, int ntag, const char **tags){
+  jp = 0; J("{\"e\":\"Reset\",\"n\":%d,\"cls\":[", n);
+  for(int i = 0; i < ntag; i++) J("%s\"%s\"", i ? "," : "", tags[i]);
+  J("]}"); VRT_EMIT("%s", jb);
+}
+static const char *size_cls(int n){
+  static char b[8][40]; static int w = 0; char *o = b[w++ & 7];
+  if(n <= 3) snprintf(o, 40, "K1:n=%d", n);
+  else if(n >= 199) snprintf(o, 40, "K1:n=%d", n);
+  else if(n % 32 == 0) snprintf(o, 40, "K2:n=%d(k*32)", n);
+  else if(n % 32 == 1 || n % 32 == 31) snprintf(o, 40, "K2:n=%d(k*32+-1)", n);
+  else if(n % 4 == 0) snprintf(o, 40, "K2:n=k*4");
+  else snprintf(o, 40, "K2:n=k*4+-r");
+  return o;
+}
+/* one ROC block: base / monotone map / permutation / negation on one (truths, scores) */
+static void roc_block(vrng *R, int n, int comp, int miss, int sc, const char *extra){
+  long *y = malloc(sizeof(long) * n), *y2 = malloc(sizeof(long) * n), *tmp = malloc(sizeof(long) * n); double *s = malloc(sizeof(double) * n), *t = malloc(sizeof(double) * n);
+  miss = eff_miss(n, miss);
+  gen_truths(R, comp, miss, n, y); gen_scores(R, sc, n, y, s);
+  const char *tags[6]; int nt = 0; tags[nt++] = size_cls(n); tags[nt++] = CP_CLS[comp]; tags[nt++] = SC_CLS[sc]; if(n >= 5) tags[nt++] = MS_CLS[miss]; if(extra) tags[nt++] = extra;
+  reset_line(n, nt, tags);
+  g_sc = SC_NAME[sc];
+  emit_roc("base", n, y, s);
+  int save_again = g_again; g_again = 0;
+  double lo = s[0], hi = s[0]; for(int i = 1; i < n; i++){ if(s[i] < lo) lo = s[i]; if(s[i] > hi) hi = s[i]; }
+  int w0 = (int)vr_int(R, 0, 8), done = 0;
+  for(int k = 0; k < 9 && !done; k++){                 /* a strictly increasing map that keeps the order in double precision (checked) */
+    int w = (w0 + k) % 9;
+    for(int i = 0; i < n; i++) t[i] = w < 6 ? mono(w, s[i], lo, hi) : (w == 6 ? 2.0 * s[i] : (w == 7 ? 0.5 * s[i] : cbrt(s[i])));
+    if(strictly_same_order(s, t, n)){ emit_roc("mono", n, y, t); done = 1; }
+  }
+  for(int i = 0; i < n; i++) tmp[i] = i;
+  shuffle(R, tmp, n);
+  for(int i = 0; i < n; i++){ y2[i] = y[tmp[i]]; t[i] = s[tmp[i]]; }
+  emit_roc("perm", n, y2, t);
+  for(int i = 0; i < n; i++) t[i] = -s[i];
+  emit_roc("neg", n, y, t);
+  g_again = save_again; g_sc = "rand";
+  free(y); free(y2); free(tmp); free(s); free(t);
+}
+
+/* ---- regression vectors ---- */
+static void gen_regvec(vrng *R, int rn, int amp, int miss, int perfect, long *a, long *c){
+  for(;;){
+    for(int i = 0; i < rn; i++){ a[i] = vr_int(R, -amp, amp); c[i] = (perfect || vr_unif(R) < 0.3) ? a[i] : a[i] + vr_int(R, -amp, amp); if(c[i] > 5) c[i] = 5; if(c[i] < -5) c[i] = -5; }
+    if(rn >= 5){
+      if(miss == MS_FIRST || miss == MS_BOTH) a[0] = MISSCODE;
+      if(miss == MS_LAST || miss == MS_BOTH) a[rn - 1] = MISSCODE;
+      if(miss == MS_20){ long *k = malloc(sizeof(long) * rn); distinct_ints(R, rn / 5, 0, rn - 1, k); for(int q = 0; q < rn / 5; q++) a[k[q]] = MISSCODE; free(k); }
+    }
+    int first = 1, varies = 0, cnt = 0; long v0 = 0;
+    for(int i = 0; i < rn; i++) if(a[i] != MISSCODE){ cnt++; if(first){ v0 = a[i]; first = 0; } else if(a[i] != v0) varies = 1; }
+    if(varies && cnt >= 2) return;
+  }
+}
+static const char *scale_cls(int ex, int dx, long off){
+  static char b[8][48]; static int w = 0; char *o = b[w++ & 7];
+  if(off != 0) snprintf(o, 48, "K3:offset-%s", labs(off) >= 1000000000L ? "1e9" : (labs(off) >= 100000000L ? "1e8" : (labs(off) >= 1000000L ? "1e6..1e8" : "<1e6")));
+  else if(dx != 0) snprintf(o, 48, "K5:scale-1e%d", dx);
+  else snprintf(o, 48, "K4:scale-2^%d", ex);
+  return o;
+}
+static void reg_block(vrng *R, int rn, int amp, int miss, int perfect, int ex, int dx, long off){
+  long a[200], c[200];
+  miss = eff_miss(rn, miss);
+  gen_regvec(R, rn, amp, miss, perfect, a, c);
+  const char *tags[6]; int nt = 0; tags[nt++] = size_cls(rn); tags[nt++] = scale_cls(ex, dx, off); if(off != 0 && ex != 0) tags[nt++] = scale_cls(ex, 0, 0);
+  if(rn >= 5) tags[nt++] = MS_CLS[miss]; if(perfect) tags[nt++] = "K8:perfect-prediction";
+  reset_line(rn, nt, tags);
+  emit_reg(rn, a, c, ex, off, dx);
+}
+
+/* ---- PLS / MLR regression tables ---- */
+typedef struct { int n, ny, nlv, ex; long off; long *mt, *mp; } tabdata;
+static void tab_alloc(tabdata *t, int n, int ny, int nlv){ t->n = n; t->ny = ny; t->nlv = nlv; t->ex = 0; t->off = 0; t->mt = malloc(sizeof(long) * n * ny); t->mp = malloc(sizeof(long) * n * ny * nlv); }
+static void tab_free(tabdata *t){ free(t->mt); free(t->mp); }
+static void tab_fill(vrng *R, tabdata *t, int miss, int amp){
+  int n = t->n, ny = t->ny, nc = t->ny * t->nlv;
+  for(int j = 0; j < ny; j++){
+    for(;;){
+      for(int i = 0; i < n; i++) t->mt[i * ny + j] = vr_int(R, -amp, amp);
+      if(n >= 5){
+        if(miss == MS_FIRST || miss == MS_BOTH) t->mt[j] = MISSCODE;
+        if(miss == MS_LAST || miss == MS_BOTH) t->mt[(n - 1) * ny + j] = MISSCODE;
+        if(miss == MS_20){ long *k = malloc(sizeof(long) * n); distinct_ints(R, n / 5, 0, n - 1, k); for(int q = 0; q < n / 5; q++) t->mt[k[q] * ny + j] = MISSCODE; free(k); }
+        if(miss == MS_ROWPERRESP) t->mt[((j + 1) % n) * ny + j] = MISSCODE;          /* response j misses row j+1: a filter keyed on another response's column is exposed */
+      }
+      int first = 1, varies = 0, cnt = 0; long v0 = 0;
+      for(int i = 0; i < n; i++){ long v = t->mt[i * ny + j]; if(v != MISSCODE){ cnt++; if(first){ v0 = v; first = 0; } else if(v != v0) varies = 1; } }
+      if(varies && cnt >= 2) break;
+    }
+  }
+  for(int i = 0; i < n; i++) for(int c = 0; c < nc; c++){
+    long tv = t->mt[i * ny + c % ny]; if(tv == MISSCODE) tv = 0;
+    long v = (vr_unif(R) < 0.25) ? tv : tv + vr_int(R, -amp, amp); if(v > 5) v = 5; if(v < -5) v = -5;
+    t->mp[i * nc + c] = v;
+  }
+}
+static matrix *tab_matrix(tabdata *t, int truth){
+  int cols = truth ? t->ny : t->ny * t->nlv; long *src = truth ? t->mt : t->mp;
+  matrix *m; NewMatrix(&m, t->n, cols);
+  for(int i = 0; i < t->n; i++) for(int j = 0; j < cols; j++){
+    long v = src[i * cols + j];
+    m->data[i][j] = (truth && v == MISSCODE) ? (double)MISSING : fed(v, t->off, t->ex, 0);
+    if(truth && v != MISSCODE && near_missing(m->data[i][j])){ fprintf(stderr, "internal: a present truth equals the missing code\n"); exit(2); }
+  }
+  return m;
+}
+static void jmat(const char *key, long *v, int rows, int cols){
+  J(",\"%s\":[", key);
+  for(int i = 0; i < rows; i++){ J("%s[", i ? "," : ""); for(int j = 0; j < cols; j++) J("%s%ld", j ? "," : "", v[i * cols + j]); J("]"); }
+  J("]");
+}
+enum { H_FRESH, H_PRESIZED, H_RESIZED, H_SECOND, H_SHAPE, H_N };
+static const char *H_NAME[H_N] = { "fresh", "presized", "resized", "second", "shape" };
+static const char *H_CLS[H_N] = { "K7:outputs-fresh", "K7:outputs-presized-New(n)", "K7:outputs-other-size-with-data", "K7:outputs-from-previous-call-same-shape", "K7:outputs-from-previous-call-other-shape" };
+typedef struct { matrix *m[3]; dvector *v[3]; } tabout;
+static void call_tab(int mlr, matrix *mt, matrix *mp, tabout *o){
+  if(mlr) MLRRegressionStatistics(mt, mp, o->v[0], o->v[1], o->v[2]);
+  else PLSRegressionStatistics(mt, mp, o->m[0], o->m[1], o->m[2]);
+}
+static void tab_block(vrng *R, int mlr, int n, int ny, int nlv, int miss, int hist, int mask, int ex, long off, int amp){
+  if(mlr) nlv = 1;
+  miss = eff_miss(n, miss);
+  tabdata t; tab_alloc(&t, n, ny, nlv); t.ex = ex; t.off = off; tab_fill(R, &t, miss, amp);
+  tabout o; memset(&o, 0, sizeof(o));
+  for(int k = 0; k < 3; k++) if(mask & (1 << k)){
+    if(hist == H_PRESIZED){ if(mlr){ NewDVector(&o.v[k], ny); DVectorSet(o.v[k], 777.25); } else { NewMatrix(&o.m[k], nlv, ny); MatrixSet(o.m[k], 777.25); } }
+    else if(hist == H_RESIZED){ if(mlr){ NewDVector(&o.v[k], ny + 3); DVectorSet(o.v[k], -5.5); } else { NewMatrix(&o.m[k], nlv + 2, ny + 1); MatrixSet(o.m[k], -5.5); } }
+    else { if(mlr) initDVector(&o.v[k]); else initMatrix(&o.m[k]); }
+  }
+  if(hist == H_SECOND || hist == H_SHAPE){           /* a previous call with OTHER data into the same outputs */
+    tabdata u; tab_alloc(&u, hist == H_SHAPE ? n + 3 : n, hist == H_SHAPE ? ny + 1 : ny, (hist == H_SHAPE && !mlr) ? nlv + 1 : nlv); u.ex = ex; u.off = 0; tab_fill(R, &u, MS_NONE, amp);
+    matrix *ut = tab_matrix(&u, 1), *up = tab_matrix(&u, 0);
+    call_tab(mlr, ut, up, &o);
+    DelMatrix(&ut); DelMatrix(&up); tab_free(&u);
+  }
+  long pre[3] = { -1, -1, -1 };
+  for(int k = 0; k < 3; k++) if(mask & (1 << k)) pre[k] = mlr ? (long)o.v[k]->size : (long)(o.m[k]->row * o.m[k]->col);
+  matrix *mt = tab_matrix(&t, 1), *mp = tab_matrix(&t, 0);
+  call_tab(mlr, mt, mp, &o);
+  const char *tags[8]; int nt = 0; char shp[48], msk[24];
+  snprintf(shp, sizeof(shp), "K1:table-%s", n < ny * nlv ? "wide(n<ny*nlv)" : (ny == 1 && nlv == 1 ? "ny=1,nlv=1" : (ny == 1 ? "ny=1,nlv>1" : (nlv == 1 ? "ny>1,nlv=1" : "ny>1,nlv>1"))));
+  snprintf(msk, sizeof(msk), "K7:outputs-mask-%d", mask);
+  tags[nt++] = size_cls(n); tags[nt++] = shp; tags[nt++] = H_CLS[hist]; tags[nt++] = scale_cls(ex, 0, off); if(n >= 5) tags[nt++] = MS_CLS[miss]; if(mask != 7) tags[nt++] = msk;
+  tags[nt++] = mlr ? "fam:MLRRegressionStatistics" : "fam:PLSRegressionStatistics";
+  reset_line(n, nt, tags);
+  jp = 0; J("{\"e\":\"TabIn\",\"fam\":\"%s\",\"n\":%d,\"ny\":%d,\"nlv\":%d,\"exp\":%d,\"off\":%ld,\"mask\":%d,\"hist\":\"%s\",\"pre\":[%ld,%ld,%ld]", mlr ? "Mlr" : "PlsReg", n, ny, nlv, ex, off, mask, H_NAME[hist], pre[0], pre[1], pre[2]);
+  jmat("mt", t.mt, n, ny); jmat("mp", t.mp, n, ny * nlv); J("}"); VRT_EMIT("%s", jb);
+  long dims[3][2]; int shape_ok = 1;
+  for(int k = 0; k < 3; k++){
+    if(!(mask & (1 << k))){ dims[k][0] = dims[k][1] = -1; continue; }
+    dims[k][0] = mlr ? 1 : (long)o.m[k]->row; dims[k][1] = mlr ? (long)o.v[k]->size : (long)o.m[k]->col;
+    if(dims[k][0] != nlv || dims[k][1] != ny) shape_ok = 0;
+  }
+  jp = 0; J("{\"e\":\"TabOut\",\"dims\":[[%ld,%ld],[%ld,%ld],[%ld,%ld]],\"ent\":[", dims[0][0], dims[0][1], dims[1][0], dims[1][1], dims[2][0], dims[2][1]);
+  double s2 = ldexp(1.0, -2 * ex);
+  if(shape_ok) for(int lv = 0; lv < nlv; lv++) for(int j = 0; j < ny; j++){
+    long m, d; int_moments(n, t.mt + j, ny, &m, &d);
+    long ssen = -1, msres = -1, r2n = -1, r2r = -1, bn = -1, br = -1;
+    if(mask & 2){ double g = mlr ? o.v[1]->data[j] : o.m[1]->data[lv][j]; double ms = g * g * s2;
+                  if(!vfinite(ms) || !(g >= 0.0) || ms * (double)m >= 1.9e9){ ssen = VQ_MAX; msres = VQ_MAX; } else { ssen = (long)llround(ms * (double)m); msres = vq12(fabs(ms - (double)ssen / (double)m) / (ms > 1.0 ? ms : 1.0)); } }
+    if(mask & 1) frac_of(mlr ? o.v[0]->data[j] : o.m[0]->data[lv][j], d, &r2n, &r2r);
+    if(mask & 4) frac_of(mlr ? o.v[2]->data[j] : o.m[2]->data[lv][j], d, &bn, &br);
+    J("%s[%ld,%ld,%ld,%ld,%ld,%ld,%ld,%ld]", (lv || j) ? "," : "", m, ssen, msres, d, r2n, r2r, bn, br);
+  }
+  J("]}"); VRT_EMIT("%s", jb);
+  DelMatrix(&mt); DelMatrix(&mp);
+  for(int k = 0; k < 3; k++) if(mask & (1 << k)){ if(mlr) DelDVector(&o.v[k]); else DelMatrix(&o.m[k]); }
+  tab_free(&t);
+}
+
+/* ---- PLS-DA classification tables ---- */
+static void da_block(vrng *R, int n, int ny, int nlv, int sc, int twice){
+  int nc = ny * nlv;
+  long *mt = malloc(sizeof(long) * n * ny), *col = malloc(sizeof(long) * n), *ords = malloc(sizeof(long) * n * nc); double *s = malloc(sizeof(double) * n);
+  matrix *t, *sm; NewMatrix(&t, n, ny); NewMatrix(&sm, n, nc);
+  tensor *roc, *pr; matrix *auc, *ap; initTensor(&roc); initTensor(&pr); initMatrix(&auc); initMatrix(&ap);
+  long pre[4] = { 0, 0, 0, 0 };
+  for(int pass = 0; pass <= twice; pass++){          /* pass 0 of a `twice` block: other data into the same inputs (in place) and outputs */
+    for(int j = 0; j < ny; j++){ gen_truths(R, j % 2 ? CP_ALT : CP_RAND, MS_NONE, n, col); for(int i = 0; i < n; i++){ mt[i * ny + j] = col[i]; t->data[i][j] = (double)col[i]; } }
+    for(int c = 0; c < nc; c++){
+      for(int i = 0; i < n; i++) col[i] = mt[i * ny + c % ny];
+      gen_scores(R, (sc + c) % SC_N, n, col, s); order_of(s, n, ords + c * n);
+      for(int i = 0; i < n; i++) sm->data[i][c] = s[i];
+    }
+    pre[0] = (long)auc->row; pre[1] = (long)ap->row; pre[2] = (long)roc->order; pre[3] = (long)pr->order;
+    PLSDiscriminantAnalysisStatistics(t, sm, roc, auc, pr, ap);
+  }
+  const char *tags[6]; int nt = 0; char shp[48];
+  snprintf(shp, sizeof(shp), "K1:table-%s", n < nc ? "wide(n<ny*nlv)" : (ny == 1 && nlv == 1 ? "ny=1,nlv=1" : (ny == 1 ? "ny=1,nlv>1" : (nlv == 1 ? "ny>1,nlv=1" : "ny>1,nlv>1"))));
+  tags[nt++] = size_cls(n); tags[nt++] = shp; tags[nt++] = SC_CLS[sc]; tags[nt++] = twice ? "K7:outputs-from-previous-call-same-shape" : "K7:outputs-fresh"; tags[nt++] = "fam:PLSDiscriminantAnalysisStatistics";
+  reset_line(n, nt, tags);
+  jp = 0; J("{\"e\":\"DaIn\",\"n\":%d,\"ny\":%d,\"nlv\":%d,\"hist\":\"%s\",\"pre\":[%ld,%ld,%ld,%ld]", n, ny, nlv, twice ? "second" : "fresh", pre[0], pre[1], pre[2], pre[3]);
+  jmat("mt", mt, n, ny); jmat("ords", ords, nc, n); J("}"); VRT_EMIT("%s", jb);
+  /* the part this call produced: the last nlv rows / slices (the whole output when it was empty on entry) */
+  int ok = (long)auc->row >= nlv && (long)ap->row >= nlv && (long)roc->order >= nlv && (long)pr->order >= nlv && (long)auc->col == ny && (long)ap->col == ny;
+  size_t ba = ok ? auc->row - nlv : 0, bp = ok ? ap->row - nlv : 0, br = ok ? roc->order - nlv : 0, bq = ok ? pr->order - nlv : 0;
+  for(int lv = 0; ok && lv < nlv; lv++) if((int)roc->m[br + lv]->row != n || (int)roc->m[br + lv]->col != 2 * ny || (int)pr->m[bq + lv]->row != n || (int)pr->m[bq + lv]->col != 2 * ny) ok = 0;
+  /* tables (and, for fresh outputs, the curve slices) in DaOut; the curve slices of a USED tensor go into their own event DaSlices */
+  for(int evk = 0; evk <= twice; evk++){
+    jp = 0;
+    if(evk == 0){
+      J("{\"e\":\"DaOut\",\"dims\":[%zu,%zu,%zu,%zu,%zu,%zu],\"ok\":%d,\"ent\":[", auc->row, auc->col, ap->row, ap->col, roc->order, pr->order, ok);
+      if(ok) for(int lv = 0; lv < nlv; lv++) for(int j = 0; j < ny; j++){
+        long p = 0, nn = 0; for(int i = 0; i < n; i++){ if(mt[i * ny + j] == 1) p++; else nn++; }
+        double d2 = 2.0 * (double)p * (double)nn, a = auc->data[ba + lv][j];
+        long a2 = vfinite(a) ? (long)llround(a * d2) : VQ_MAX;
+        J("%s[%ld,%ld,%ld]", (lv || j) ? "," : "", a2, vfinite(a) ? vq12(fabs(a - (double)a2 / d2)) : VQ_MAX, vqs_unit(ap->data[bp + lv][j], 1e-9));
+      }
+      J("]");
+    }
+    else J("{\"e\":\"DaSlices\",\"at\":[%zu,%zu]", br, bq);
+    double res = 0; int with = ok && (evk == 1 || !twice);
+    J(",\"rocs\":[");
+    if(with) for(int lv = 0; lv < nlv; lv++) for(int j = 0; j < ny; j++){
+      long p = 0, nn = 0; for(int i = 0; i < n; i++){ if(mt[i * ny + j] == 1) p++; else nn++; }
+      J("%s[", (lv || j) ? "," : "");
+      for(int i = 0; i < n; i++){
+        double x = roc->m[br + lv]->data[i][2 * j], yv = roc->m[br + lv]->data[i][2 * j + 1];
+        long fp = (long)llround(x * (double)nn), tp = (long)llround(yv * (double)p);
+        double r1 = fabs(x - (double)fp / (double)nn), r2 = fabs(yv - (double)tp / (double)p); if(!(r1 <= res)) res = r1; if(!(r2 <= res)) res = r2;
+        J("%s[%ld,%ld]", i ? "," : "", fp, tp);
+      }
+      J("]");
+    }
+    J("],\"prs\":[");
+    if(with) for(int lv = 0; lv < nlv; lv++) for(int j = 0; j < ny; j++){
+      long p = 0; for(int i = 0; i < n; i++) if(mt[i * ny + j] == 1) p++;
+      J("%s[", (lv || j) ? "," : "");
+      { double a = fabs(pr->m[bq + lv]->data[0][2 * j]), b = fabs(pr->m[bq + lv]->data[0][2 * j + 1] - 1.0); if(!(a <= res)) res = a; if(!(b <= res)) res = b; }
+      for(int i = 1; i < n; i++){
+        double x = pr->m[bq + lv]->data[i][2 * j], yv = pr->m[bq + lv]->data[i][2 * j + 1];
+        long tp = (long)llround(x * (double)p);
+        double r1 = fabs(x - (double)tp / (double)p), r2 = fabs(yv - (double)tp / (double)i); if(!(r1 <= res)) res = r1; if(!(r2 <= res)) res = r2;
+        J("%s[%ld,%d]", i > 1 ? "," : "", tp, i);
+      }
+      J("]");
+    }
+    J("],\"res\":%ld}", vq12(res)); VRT_EMIT("%s", jb);
+  }
+  DelMatrix(&t); DelMatrix(&sm); DelTensor(&roc); DelTensor(&pr); DelMatrix(&auc); DelMatrix(&ap);
+  free(mt); free(col); free(ords); free(s);
+}
+
+/* ---- curve_area on an arbitrary polyline (EXTRA: outside the statement) ---- */
+static void poly_block(vrng *R, int n, int ex){
+  long *pts = malloc(sizeof(long) * 2 * n); matrix *xy; NewMatrix(&xy, n, 2);
+  for(int i = 0; i < n; i++){ pts[2 * i] = vr_int(R, -20, 20); pts[2 * i + 1] = vr_int(R, -20, 20); xy->data[i][0] = ldexp((double)pts[2 * i], ex); xy->data[i][1] = ldexp((double)pts[2 * i + 1], ex); }
+  double a = curve_area(xy, 0) * ldexp(1.0, -2 * ex);
+  const char *tags[2] = { size_cls(n), "fam:curve_area" }; reset_line(n, 2, tags);
+  long a2 = vfinite(a) && fabs(a) < 9e8 ? (long)llround(2.0 * a) : VQ_MAX;
+  jp = 0; J("{\"e\":\"Poly\",\"n\":%d,\"exp\":%d", n, ex); jmat("pts", pts, n, 2); J(",\"a2\":%ld,\"res\":%ld}", a2, vfinite(a) ? vq12(fabs(2.0 * a - (double)a2)) : VQ_MAX); VRT_EMIT("%s", jb);
+  DelMatrix(&xy); free(pts);
+}
+
+static int do_cls(const char *out, long seed, int level, int part, int nparts){
+  vrt_open(out); install_crash(); cur_fam = "cls"; g_part = part; g_nparts = nparts; g_block = 0;
+  vrng R0 = { (uint64_t)seed * 0x9E3779B97F4A7C15ULL + 777 };
+  /* every block draws from its own generator (seed, block index): a block is reproducible whatever the partition */
+#define BLOCK(stmt) do{ vrng R = { R0.s + 0x632BE59BD9B4E019ULL * (uint64_t)(g_block + 1) }; cur_i = g_block; if(take_block()){ stmt; } }while(0)
+  static const int SIZES[15] = { 2, 3, 4, 5, 31, 32, 33, 63, 64, 65, 127, 128, 129, 199, 200 };
+  static const int EXS[7] = { -30, -20, -7, 0, 9, 20, 30 };
+  static const int DXS[8] = { -9, -6, -3, -1, 1, 3, 6, 9 };
+  static const long OFFS[10] = { 1000, 1048576, 1000000, -1000000, 30000000, 100000007, 250000000, 1000000000, 1073741824, -1073741824 };
+  int rep = level >= 2 ? 6 : 1;
+  for(int r = 0; r < rep; r++){
+    /* ROC: every size x rotating composition / score class */
+    for(int i = 0; i < 15; i++) BLOCK(roc_block(&R, SIZES[i], (i + r) % CP_N, MS_NONE, (i + 3 * r) % SC_N, NULL));
+    /* every score class at n = 2, 3, 17, 200 */
+    static const int NS4[4] = { 2, 3, 17, 200 };
+    for(int c = 0; c < SC_N; c++) for(int k = 0; k < 4; k++) BLOCK(roc_block(&R, NS4[k], CP_RAND, MS_NONE, c, NULL));
+    /* all-but-one compositions at the extreme sizes */
+    static const int NS5[5] = { 2, 3, 64, 199, 200 };
+    for(int k = 0; k < 5; k++) for(int cp = CP_ONEPOS; cp <= CP_ONENEG; cp++) BLOCK(roc_block(&R, NS5[k], cp, MS_NONE, (k + cp + r) % SC_N, NULL));
+    /* missing-coded truths first / last / both / 20 % */
+    static const int NS3[3] = { 5, 64, 200 };
+    for(int k = 0; k < 3; k++) for(int ms = MS_FIRST; ms <= MS_20; ms++) BLOCK(roc_block(&R, NS3[k], CP_RAND, ms, (k + ms + r) % SC_N, NULL));
+    /* K7: the same input vectors reused in place: same shape other data, other shape, the first shape again */
+    { dvector *pyt, *pys; NewDVector(&pyt, 17); NewDVector(&pys, 17); static const int SEQ[5] = { 17, 17, 9, 17, 64 };
+      BLOCK(g_yt = pyt; g_ys = pys; for(int k = 0; k < 5; k++) roc_block(&R, SEQ[k], CP_RAND, MS_NONE, (k + r) % 3 == 0 ? SC_NORM : SC_ULP, "K7:inputs-reused-in-place"); g_yt = g_ys = NULL);
+      DelDVector(&pyt); DelDVector(&pys); }
+    /* K7 (implementation layer): ROC / PrecisionRecall into non-empty outputs */
+    static const int NSA[3] = { 6, 65, 198 };
+    for(int v = 1; v <= 2; v++) for(int k = 0; k < 3; k++) BLOCK(g_again = v; roc_block(&R, NSA[k], CP_RAND, MS_NONE, SC_NORM, v == 1 ? "K7:curve-output-presized-New(n)" : "K7:curve-output-from-previous-call"); g_again = 0);
+
+    /* regression: every size x rotating scale / offset / missing pattern */
+    for(int i = 0; i < 15; i++) for(int v = 0; v < 3; v++){
+      int q = i * 3 + v + r;
+      if(v == 0) BLOCK(reg_block(&R, SIZES[i], 1 + q % 5, q % MS_ROWPERRESP, 0, EXS[q % 7], 0, 0));
+      else if(v == 1) BLOCK(reg_block(&R, SIZES[i], 1 + q % 5, q % MS_ROWPERRESP, 0, 0, DXS[q % 8], 0));
+      else BLOCK(reg_block(&R, SIZES[i], 1 + q % 5, q % MS_ROWPERRESP, 0, EXS[q % 7], 0, OFFS[q % 10]));
+    }
+    static const int NS2[2] = { 3, 30 };
+    for(int k = 0; k < 2; k++){
+      for(int e = 0; e < 7; e++) BLOCK(reg_block(&R, NS2[k], 3, MS_NONE, 0, EXS[e], 0, 0));
+      for(int e = 0; e < 8; e++) BLOCK(reg_block(&R, NS2[k], 3, MS_NONE, 0, 0, DXS[e], 0));
+    }
+    static const int NS6[3] = { 2, 30, 200 };
+    for(int k = 0; k < 3; k++) for(int o = 0; o < 10; o++) BLOCK(reg_block(&R, NS6[k], 1 + (o + k) % 5, (k && o % 2) ? MS_20 : MS_NONE, 0, (o % 3 == 0) ? EXS[(o + k) % 7] : 0, 0, OFFS[o]));
+    for(int k = 0; k < 3; k++) for(int ms = MS_FIRST; ms <= MS_20; ms++) BLOCK(reg_block(&R, NS3[k], 2 + k, ms, 0, EXS[(k + ms) % 7], 0, ms % 2 ? OFFS[(k + ms) % 10] : 0));
+    for(int k = 0; k < 4; k++) BLOCK(reg_block(&R, k == 0 ? 2 : (k == 1 ? 33 : (k == 2 ? 200 : 12)), 4, k == 3 ? MS_20 : MS_NONE, 1, EXS[(2 * k + 1) % 7], 0, k == 2 ? OFFS[7] : 0));
+
+    /* regression tables: shapes x histories x masks x missing patterns x unit systems */
+    static const int SH[9][3] = { {2,1,1}, {3,2,2}, {3,4,3}, {5,2,2}, {9,3,3}, {32,2,3}, {33,3,1}, {65,1,3}, {200,2,2} };
+    for(int mlr = 0; mlr <= 1; mlr++){
+      for(int sidx = 0; sidx < 9; sidx++) for(int h = 0; h < H_N; h++){
+        int q = sidx * H_N + h + r;
+        if(SH[sidx][0] == 200 && h > 1 && level < 2) continue;
+        BLOCK(tab_block(&R, mlr, SH[sidx][0], SH[sidx][1], SH[sidx][2], q % MS_N, h, 7, (q % 4 == 0) ? EXS[q % 7] : 0, (q % 3 == 0) ? OFFS[q % 10] : 0, 1 + q % 4));
+      }
+      for(int ms = MS_FIRST; ms < MS_N; ms++) for(int sidx = 3; sidx < 6; sidx++) BLOCK(tab_block(&R, mlr, SH[sidx][0], SH[sidx][1] + (mlr ? 1 : 0), SH[sidx][2], ms, (ms + sidx) % H_N, 7, 0, 0, 3));
+      for(int mask = 1; mask < 7; mask++) BLOCK(tab_block(&R, mlr, 9, 2, 2, mask % MS_N, mask % H_N, mask, 0, 0, 3));
+      for(int o = 0; o < 10; o++) BLOCK(tab_block(&R, mlr, o % 2 ? 33 : 8, 2, 2, o % 3 ? MS_20 : MS_NONE, o % H_N, 7, (o % 2) ? EXS[o % 7] : 0, OFFS[o], 2));
+      for(int e = 0; e < 7; e++) BLOCK(tab_block(&R, mlr, 6, 2, 3, e % MS_N, e % H_N, 7, EXS[e], 0, 4));
+      /* many responses x many latent variables (35 columns: index arithmetic beyond the 3 x 3 of the enumerated cases) */
+      BLOCK(tab_block(&R, mlr, 12, 5, 7, MS_ROWPERRESP, (r + 1) % H_N, 7, 0, 0, 3));
+      BLOCK(tab_block(&R, mlr, 40, 7, 5, MS_20, (r + 3) % H_N, 7, EXS[(r + 2) % 7], OFFS[(r + 4) % 10], 2));
+    }
+    /* classification tables */
+    static const int DSH[8][3] = { {2,1,1}, {3,2,2}, {5,3,3}, {17,2,2}, {64,2,3}, {65,3,1}, {200,2,2}, {30,4,4} };
+    for(int sidx = 0; sidx < 8; sidx++) for(int tw = 0; tw <= 1; tw++){ if(tw && sidx % 2 && level < 2) continue; BLOCK(da_block(&R, DSH[sidx][0], DSH[sidx][1], DSH[sidx][2], (3 * sidx + r + tw) % SC_N, tw)); }
+    /* curve_area on general polylines */
+    for(int k = 0; k < 6; k++) BLOCK(poly_block(&R, k < 2 ? 2 + k : (k == 5 ? 200 : 5 + 14 * k), EXS[(k + r) % 7]));
+  }
+#undef BLOCK
   cur_i = -1;
   vrt_close();
   return 0;
@@ -436,8 +909,8 @@ static int do_one(const char *cases, const char *out){
     }
     else if(!strcmp(q.fam, "Reg")){
       VRT_EMIT("{\"e\":\"Reset\",\"n\":%d}", n);
-      for(int x = 0; x < 3; x++) emit_reg(n, q.a[0].v, q.a[1].v, EXPS[x], 0);
-      emit_reg(n, q.a[0].v, q.a[1].v, 0, 1048576); emit_reg(n, q.a[0].v, q.a[1].v, 0, 1073741824); emit_reg(n, q.a[0].v, q.a[1].v, 7, -33554432);
+      for(int x = 0; x < 3; x++) emit_reg(n, q.a[0].v, q.a[1].v, EXPS[x], 0, 0);
+      emit_reg(n, q.a[0].v, q.a[1].v, 0, 1048576, 0); emit_reg(n, q.a[0].v, q.a[1].v, 0, 1073741824, 0); emit_reg(n, q.a[0].v, q.a[1].v, 7, -33554432, 0);
     }
     free_case(&q);
   }
@@ -450,6 +923,7 @@ int main(int argc, char **argv){
   if(argc >= 5 && !strcmp(argv[1], "replay")) return do_replay(argv[2], argv[3], argv[4]);
   if(argc >= 6 && !strcmp(argv[1], "trace")) return do_trace(argv[2], atol(argv[3]), atoi(argv[4]), atoi(argv[5]));
   if(argc >= 4 && !strcmp(argv[1], "one")) return do_one(argv[2], argv[3]);
-  fprintf(stderr, "usage: c15_replay replay cases out family | trace out seed blocks maxn | one cases out\n");
+  if(argc >= 7 && !strcmp(argv[1], "cls")) return do_cls(argv[2], atol(argv[3]), atoi(argv[4]), atoi(argv[5]), atoi(argv[6]));
+  fprintf(stderr, "usage: c15_replay replay cases out family | trace out seed blocks maxn | one cases out | cls out seed level part nparts\n");
   return 2;
 }
